@@ -1,7 +1,48 @@
 (* C06 -- end-to-end payload transparency between two endpoints (first part; see NetProofs). *)
 From Coq Require Import List String Bool ZArith.
-From OV.Model Require Import Json Names Schema Validate Frame Classes Dispatch Endpoint Net NetProofs Shipped.
+From OV.Model Require Import Json Names NamesProofs Schema Validate Frame Classes Vocab Dispatch Endpoint Net NetProofs Shipped.
+From OV.Gen Require Import Schemas16 Schemas201 Classes16 Classes201.
 Import ListNotations.
+Local Open Scope string_scope.
+Local Open Scope list_scope.
+
+(* the object a caller built (asdict, snake_case keys, Nones for unset optionals), written with
+   the wire names and Nones dropped, then received and renamed back: the receiver's keywords are
+   the caller's object without its Nones -- every key at every depth, every value (falsy ones
+   too) unchanged.  Hypothesis: the keys that occur are keys the two name functions undo each
+   other on -- discharged for every field name of every payload / data-type class below. *)
+Theorem C06_request_transparent :
+  forall d, wf_keys d -> (forall k, In k (all_keys d) -> c2s (s2c k) = k) ->
+            c2s_keys (remove_nones (s2c_keys d)) = remove_nones d.
+Proof. exact (sent_then_received s2c c2s). Qed.
+Print Assumptions C06_request_transparent.
+
+(* the handler's result object: Nones dropped, wire names, and back at the caller *)
+Theorem C06_result_transparent :
+  forall r, wf_keys r -> (forall k, In k (all_keys r) -> c2s (s2c k) = k) ->
+            c2s_keys (s2c_keys (remove_nones r)) = remove_nones r.
+Proof. exact (received_then_sent s2c c2s). Qed.
+Print Assumptions C06_result_transparent.
+
+(* and from the wire's point of view: a payload whose keys are schema property names comes back
+   unchanged after snake_case and camelCase again (C10_roundtrip discharges the hypothesis for
+   every name of the vocabulary) *)
+Theorem C06_wire_transparent :
+  forall w, wf_keys w -> (forall k, In k (all_keys w) -> s2c (c2s k) = k) ->
+            s2c_keys (c2s_keys w) = w.
+Proof. intros w. exact (rekey_roundtrip c2s s2c w). Qed.
+Print Assumptions C06_wire_transparent.
+
+(* the hypothesis of the first two theorems holds for every field of every shipped class, with
+   exactly two exceptions in one data type (v201 IdTokenInfoType.language_1 / language_2, whose wire
+   name language1 maps back to language1: a caller that builds that data type as a dataclass is
+   seen by the handler under the key language1; recorded in DESIGN.md) *)
+Theorem C06_field_names :
+  forallb (fun c => forallb (fun f => String.eqb (c2s (s2c (f_name f))) (f_name f)
+                                     || mem (f_name f) ["language_1"; "language_2"]) (c_fields c))
+          (calls16 ++ results16 ++ datatypes16 ++ calls201 ++ results201 ++ datatypes201) = true.
+Proof. vm_compute. reflexivity. Qed.
+Print Assumptions C06_field_names.
 
 (* what is written contains no null, whatever object the caller or the handler built *)
 Theorem C06_no_null_obj : forall l, no_null (remove_nones (JObj l)) = true.
